@@ -1353,11 +1353,11 @@ class InterpCore:
             return self.sym_truth(v, run, node)
         if isinstance(v, DictV):
             if v.may:
-                return self.sym_truth(Sym(("nonempty", term_of(v)), "bool"), run, node)
+                return self.sym_truth(Sym(nonempty_term(term_of(v)), "bool"), run, node)
             return bool(v.d)
         if isinstance(v, ListV):
             if v.may:
-                return self.sym_truth(Sym(("nonempty", term_of(v)), "bool"), run, node)
+                return self.sym_truth(Sym(nonempty_term(term_of(v)), "bool"), run, node)
             return bool(v.items)
         if isinstance(v, Obj):
             return True
